@@ -56,13 +56,13 @@ type SliceV struct {
 	Len   *Term
 }
 
-func (v IntV) valString() string   { return v.T.String() }
-func (v BoolV) valString() string  { return v.Cond }
-func (NilV) valString() string     { return "nil" }
-func (v UnkV) valString() string   { return "?" + v.Text }
-func (v BufV) valString() string   { return fmt.Sprintf("buf#%d[%s:]", v.ID, v.Off) }
-func (v ObjV) valString() string   { return v.Path }
-func (v ClosV) valString() string  { return "closure" }
+func (v IntV) valString() string  { return v.T.String() }
+func (v BoolV) valString() string { return v.Cond }
+func (NilV) valString() string    { return "nil" }
+func (v UnkV) valString() string  { return "?" + v.Text }
+func (v BufV) valString() string  { return fmt.Sprintf("buf#%d[%s:]", v.ID, v.Off) }
+func (v ObjV) valString() string  { return v.Path }
+func (v ClosV) valString() string { return "closure" }
 
 // PtrV is the address of a receiver-reachable field (Path) or of a local variable (Var).
 type PtrV struct {
@@ -109,8 +109,10 @@ type BufObj struct {
 	Extent  *Term
 	Recs    []*Rec
 	Cursor  types.Object
-	Pos     token.Pos
-	Snap    map[string]*Term
+	// CursorPath: the cursor is an integer field of a local object (a cursor struct's offset: w.n)
+	CursorPath string
+	Pos        token.Pos
+	Snap       map[string]*Term
 	// FromRead: the read record that filled this fresh buffer (net.IPv4(data[n], …)); when the buffer is
 	// later stored into a receiver field the record is relabelled with that field
 	FromRead *Rec
@@ -229,6 +231,7 @@ type Interp struct {
 	continues   []*brk
 	fellThrough bool
 	closLits    map[types.Object]*ast.FuncLit
+	liftedPaths map[string]types.Object // inside execFor: field path → synthetic variable
 	byRef       bool   // closure body: assignments to captured variables are written back to the caller's frame
 	contGuard   string // set by execIf: guard under which the rest of the enclosing block runs
 	curLit      *ast.FuncType
@@ -239,6 +242,7 @@ type sharedCtx struct {
 	nextObj  int
 	nextSym  int
 	nextLoop int
+	fieldVars map[string]*types.Var // synthetic variables standing for integer fields of local objects inside a for loop
 	lenDepth int
 	seq      int
 }
@@ -1113,6 +1117,7 @@ func (in *Interp) sliceExpr(st *State, x *ast.SliceExpr) Val {
 					st.bufs[b.ID].Cursor = o
 				}
 			}
+			in.noteCursorPath(st, b.ID, x.Low)
 		}
 		nv := BufV{ID: b.ID, Off: b.Off.Add(lo), Hi: b.Hi}
 		if x.High != nil {
